@@ -11,7 +11,7 @@ wt="/var/tmp/swt_$id"
 git -C /repo worktree add --detach "$wt" >/dev/null 2>&1 || { echo "cannot create worktree"; exit 2; }
 trap 'git -C /repo worktree remove --force "$wt" >/dev/null 2>&1; rm -rf "$wt"' EXIT
 git -C "$wt" apply "$d/patch.diff" || { echo "$id: patch does not apply"; exit 2; }
-props=$(/venv/bin/python -c "import json,sys; m=json.load(open('$d/meta.json')); print(' '.join([m['property']]+m.get('also',[])))")
+[ -n "${PROPS:-}" ] && props="$PROPS" || props=$(/venv/bin/python -c "import json,sys; m=json.load(open('$d/meta.json')); print(' '.join([m['property']]+m.get('also',[])))")
 for p in $props; do
   echo "=== $id : check $p ($tier)"
   (cd "$here" && ATOMICA_REPO="$wt" PYTHONPATH="$wt" VERIF_EVIDENCE_SUFFIX=".seeded" ./check "$p" --tier "$tier" 2>&1 | grep -E "VIOLATION|KNOWN-FINDING|what:|broken:|^\[$p\]|INTERNAL" | head -12)
